@@ -7,6 +7,7 @@ CONSTANTS
   Kinds = @KINDS@
   MaxSteps = @STEPS@
   Histories = @HISTS@
+  GoAways = {FALSE, TRUE}
 INIT Init
 NEXT Next
 INVARIANTS Emit
